@@ -92,7 +92,16 @@ def impl(line):
             _cache.clear()
         with warnings.catch_warnings():
             warnings.simplefilter("ignore")
-            _cache[key] = definitions.XtcePacketDefinition.from_xtce(io.BytesIO(xml))
+            if len(key) % 2:
+                _cache[key] = definitions.XtcePacketDefinition.from_xtce(io.BytesIO(xml))
+            else:
+                # the package-level entry point, given a file name
+                import space_packet_parser, tempfile, os
+                with tempfile.TemporaryDirectory() as td:
+                    fn = os.path.join(td, "doc.xml")
+                    with open(fn, "wb") as fh:
+                        fh.write(xml)
+                    _cache[key] = space_packet_parser.load_xml(fn if len(key) % 4 else __import__("pathlib").Path(fn))
     defn = _cache[key]
     if sx(xser.definition(defn)) != sx(t[2]):
         return "err serialisation-mismatch"
